@@ -59,11 +59,11 @@ func (m *cntModel) Key() []byte {
 }
 
 type cntOp struct {
-	kind   string // put putNamed putMeta delete setEACL time
-	i      int
-	name   string
-	table  int
-	signer string
+	kind    string // put putNamed putMeta delete setEACL time
+	i       int
+	name    string
+	table   int
+	signer  string
 	noTok   bool // no session token: the owner's key is bound in NeoFSID on the way
 	metaOff bool // putMeta with the flag set to false
 	off     int  // setEACL: length of the version field in front of the container reference
